@@ -101,6 +101,29 @@ theorem seq_interpreter (st : Store) (hwf : WF st.scopes) (hfree : AllFree st.sc
     run st (.req (.set s k v)) = ({ st with scopes := dataSet st.scopes s k v }, .inl .ok) :=
   ⟨run_get hwf hfree s k hs, run_set hfree s k v hs⟩
 
+/-- ... and through a locker: `LockData` on a free scope hands out a locker on that scope's own map;
+inside the section the locker's `Value` is the same overlay (own entry, else the parent's current
+value), its `SetValue` is a write to that scope alone (so `child_set_frames_parent` applies), and
+`Commit` releases the scope. -/
+theorem locked_section_sequential (st : Store) (hwf : WF st.scopes) (s l : Nat) (sc : Scope)
+    (hsc : st.scopes[s]? = some sc)
+    (hlk : st.lockers[l]? = some { target := some s, parent := sc.parent, unlock := .scope s, held := false })
+    (hheld : sc.held = true)
+    (hothers : ∀ (i : Nat) (x : Scope), i ≠ s → st.scopes[i]? = some x → x.held = false) (k : Key) (v : Val) :
+    run st (.req (.lget l k)) = (st, .inl (.val (value st.scopes s k))) ∧
+    run st (.req (.lset l k v)) = ({ st with scopes := dataSet st.scopes s k v }, .inl .ok) ∧
+    (run st (.req (.commit l))).2 = .inl .ok ∧
+    (run st (.req (.commit l))).1.scopes = setHeld st.scopes s false :=
+  run_locker hwf s l sc _ hsc hlk rfl hheld hothers k v
+
+-- such a store is what `LockData` produces from an unlocked one
+example :
+    let st : Store := { scopes := [⟨none, [(1, some 5)], false⟩, ⟨some 0, [], false⟩], lockers := [] }
+    run st (.req (.lock 1)) =
+      ({ scopes := [⟨none, [(1, some 5)], false⟩, ⟨some 0, [], true⟩],
+         lockers := [{ target := some 1, parent := some 0, unlock := .scope 1, held := false }] }, .inl (.locker 0)) := by
+  decide
+
 /-! ### 2. Locked sections (all schedules, any number of threads, any programs) -/
 
 /-- Between the `LockData` of thread `o` on scope `s` and its `Commit`, no action of another
